@@ -99,11 +99,14 @@ impl Out {
 		let ev = json!({"i": self.n, "op": op, "case": case, "be": self.be, "args": args, "out": out, "err": err, "obs": obs});
 		serde_json::to_writer(&mut self.w, &ev).unwrap();
 		self.w.write_all(b"\n").unwrap();
+		// every event reaches the file at once: if the code under test kills the process, the trace tells how far it got
+		self.w.flush().unwrap();
 	}
 	pub fn raw(&mut self, ev: &Value) {
 		self.n += 1;
 		serde_json::to_writer(&mut self.w, ev).unwrap();
 		self.w.write_all(b"\n").unwrap();
+		self.w.flush().unwrap();
 	}
 	pub fn finish(mut self) {
 		self.w.flush().unwrap();
